@@ -22,6 +22,9 @@ fn main() {
         eprintln!("usage: harness <sub-command> [args]");
         std::process::exit(2);
     }
+    if args[1] != "crash" {
+        util::start_watchdog();
+    }
     match args[1].as_str() {
         "tags" => tags::main(&args[2..]),
         "client" => client::main(&args[2..]),
